@@ -211,7 +211,8 @@ inline std::string isolated(const std::function<void(std::ostream &)> &f, std::s
   }
   if (WIFSIGNALED(st)) {
     int sg = WTERMSIG(st);
-    if (sg == SIGABRT) return err.find("Sanitizer") != std::string::npos ? "sanitizer" : "abort";
+    if (sg == SIGABRT)
+      return (err.find("Sanitizer") != std::string::npos || err.find("runtime error:") != std::string::npos) ? "sanitizer" : "abort";
     if (sg == SIGALRM) return "timeout";
     return "signal:" + std::to_string(sg);
   }
